@@ -30,6 +30,8 @@ def obligations(tier, seed=0):
     for bc in (1, 2, 5, 12):
         for neg in (0, 1):
             add('mag', kind='int', bc=bc, neg=neg)
+    for pbc, qbc in [(5, 3), (3, 5), (1, 4), (6, 1), (4, 4), (56, 2), (60, 3), (2, 56), (30, 30)]:
+        add('mag', kind='mpq', pbc=pbc, qbc=qbc)
     for rbc, ibc, off in [(3, 3, 0), (5, 2, 1), (2, 5, -1), (12, 1, -5), (1, 12, 5), (12, 1, -16), (1, 12, 16), (12, 3, -7), (4, 4, 3), (6, 6, -2), (1, 1, 0), (10, 10, 0)]:
         for cp in (53, 3, 10):
             add('mag', kind='mpc', rbc=rbc, ibc=ibc, off=off, ctxprec=cp)
